@@ -24,6 +24,10 @@ Oracle: for seeded model recipes M (same variable / parameter *names* in every m
         internal helper of each library module, faults inside the compiled callables) — followed by a model over the same
         names at shifted positions of the variable list, each channel in turn used first: NumPy model of the recipe's formula
         (values, analytic gradients, Hessian, hand-computed optimum) and a fresh process.
+        Histories in which OTHER models are solved with EXPLICIT PER-CALL SOLVER OPTIONS (maxiter / tol / x0 / use_hessian /
+        callbacks / strict / options={...} / keywords the back end rejects; every NLP and LP method) before a model is solved
+        with defaults and with its own options: the optimum of its recipe computed in NumPy (KKT systems of all active sets,
+        vertex enumeration), its twin from fresh objects solved before the other models, and a fresh process.
 """
 from __future__ import annotations
 
@@ -1858,6 +1862,430 @@ def abort_family(rep, ref, plan, stop_at_first=False, max_failures=3):
     return None
 
 
+# ----------------------------------------------------------------------------- per-call solver options of EARLIER solves
+#
+# The solver glue (Problem.solve -> solve_scipy / solve_lp) is process-wide code as well: whatever it keeps at module level
+# (default-option tables, "last" tolerances / starting points / methods, keyword dictionaries that are re-used) survives from
+# the solve of one model to the solve of the next.  A model's solve result must not depend on which OTHER models were solved
+# earlier and WITH WHICH PER-CALL OPTIONS.  Sessions: a measured model B (strictly convex QP over a polytope, QP over a box,
+# separable exp-plus-quadratic over a box, LP; min / max; some with an integer variable that is relaxed) × every `method=` that
+# can solve it (plain solve(), SLSQP, COBYLA, trust-constr, L-BFGS-B, TNC, linprog, highs, highs-ds, highs-ipm):
+#   1. a twin of B (fresh objects) is solved FIRST — once with defaults, once (another twin) with B's own explicit options;
+#   2. rounds: 1–2 unrelated models A (same or other names, other bounds / structure) are solved with explicit per-call
+#      options — iteration caps (maxiter 0..3, options={"maxiter": …}), loose tolerances, starting points, use_hessian=False,
+#      callbacks (one that stops the run), strict=True on a model with an integer variable (raises), keywords the back end
+#      rejects, for LPs options={...} / overriding bounds= / integrality= — the A immediately before B with B's method (the
+#      route of `auto` included) or with another one; exceptions are caught as a caller would;
+#   3. B is rebuilt from fresh objects and solved with defaults and with its own options.
+# Verdicts: (a) the default solve is OPTIMAL at the optimum computed in NumPy from the recipe (KKT systems of all active sets
+# for the QPs, clipped stationary point for the separable model, vertex enumeration for the LP) — recipes whose optimum is
+# degenerate or nearly so are not generated; (b) both solves (status, x, objective, iterations) equal the twin solved before the
+# other models; (c) and equal the same observation in a fresh process.
+
+OPT_NAME_POOLS = [["x", "y", "z"], ["x0", "x1", "x2"], ["load", "fee", "w"]]
+OPT_LP_METHODS = ["auto", "linprog", "highs", "highs-ds", "highs-ipm"]
+OPT_NLP_METHODS = ["auto", "SLSQP", "COBYLA", "trust-constr", "L-BFGS-B", "TNC"]
+OPT_TARGETS = [("qp", "auto"), ("qp", "SLSQP"), ("qpw", "COBYLA"), ("qp", "trust-constr"), ("box", "L-BFGS-B"), ("box", "auto"),
+               ("sepexp", "auto"), ("lp", "auto"), ("lp", "linprog"), ("lp", "highs"), ("lp", "highs-ds"), ("lp", "highs-ipm")]
+OPT_TARGETS_MORE = [("box", "TNC"), ("box", "SLSQP"), ("qpw", "SLSQP"), ("qpw", "trust-constr"), ("sepexp", "SLSQP"),
+                    ("box", "trust-constr")]
+OPT_ROUTE = {"qp": "SLSQP", "qpw": "SLSQP", "box": "L-BFGS-B", "sepexp": "trust-constr", "lp": "linprog"}   # what `auto` means
+OPT_KIND_FOR = {"SLSQP": ["qp", "qp", "qpw", "sepexp"], "trust-constr": ["qp", "sepexp", "qpw"], "COBYLA": ["qpw"],
+                "L-BFGS-B": ["box"], "TNC": ["box"], "auto": ["qp", "qpw", "box", "sepexp", "lp"]}
+OPT_XTOL = {"SLSQP": 5e-3, "L-BFGS-B": 5e-3, "TNC": 5e-3, "trust-constr": 5e-3, "COBYLA": 5e-3, "linprog": 1e-7}   # × (1 + max|x*|)
+OPT_CAPS = [{"maxiter": 1}, {"maxiter": 2}, {"maxiter": 3}]
+OPT_NLP_DESCS = OPT_CAPS + [
+    {"maxiter": 0}, {"tol": 0.5}, {"tol": 0.125, "maxiter": 2}, {"x0": "ub"}, {"x0": "mid", "maxiter": 1},
+    {"use_hessian": False}, {"use_hessian": False, "maxiter": 1}, {"options": {"maxiter": 1}},
+    {"options": {"maxiter": 1, "ftol": 0.5}}, {"callback": "noop"}, {"callback": "stop"}, {"strict": True},
+    {"strict": True, "maxiter": 1}, {"bogus_option": 1}, {"jac": "2-point"}, {"maxiter": 2, "callback": "noop"}]
+OPT_LP_CAPS = [{"options": {"maxiter": 0}}, {"options": {"maxiter": 1}}, {"options": {"maxiter": 1, "presolve": False}}]
+OPT_LP_DESCS = OPT_LP_CAPS + [
+    {"options": {"time_limit": 0.0}}, {"options": {"presolve": False, "disp": False}},
+    {"options": {"primal_feasibility_tolerance": 0.01, "dual_feasibility_tolerance": 0.01}}, {"bounds": "zero"},
+    {"bounds": "zero", "options": {"maxiter": 0}}, {"maxiter": 1}, {"tol": 0.01}, {"x0": "ub"}, {"integrality": 1},
+    {"callback": "noop"}, {"strict": True}, {"bogus_option": 1}]
+OPT_OWN_NLP = [{"maxiter": 2}, {"maxiter": 3}, {"tol": 0.01}, {"x0": "ub"}, {"maxiter": 60, "tol": 1e-10}]
+OPT_OWN_LP = [{"options": {"presolve": False}}, {"options": {"maxiter": 1}}, {"options": {"maxiter": 0}},
+              {"options": {"presolve": False, "maxiter": 2}}]
+
+
+def _opts_rows(sp):
+    """all restrictions of a recipe as rows G x <= h: its constraints, then upper and lower bounds"""
+    n = len(sp["names"])
+    G, h = [], []
+    for a, sense, b in sp["cons"]:
+        sg = 1.0 if sense == "<=" else -1.0
+        G.append([sg * t for t in a]); h.append(sg * b)
+    for i in range(n):
+        e = [0.0] * n; e[i] = 1.0
+        G.append(e); h.append(sp["ub"][i])
+        G.append([-t for t in e]); h.append(-sp["lb"][i])
+    return np.array(G, dtype=float), np.array(h, dtype=float)
+
+
+def opts_value(sp, x):
+    """the objective the recipe wrote down (as the user states it: the maximised function for sense = max), plain NumPy"""
+    x = np.asarray(x, dtype=float)
+    if sp["kind"] == "lp":
+        return float(np.dot(sp["c"], x) + sp["c0"])
+    if sp["kind"] == "sepexp":
+        f = float(sum(math.exp(a * z) - b * z + 0.5 * d * (z - t) ** 2 for a, b, d, t, z in zip(sp["a"], sp["b"], sp["d"], sp["t"], x)))
+    else:
+        d = x - np.array(sp["c"])
+        f = float(0.5 * d @ np.array(sp["H"]) @ d)
+    return -f if sp["sense"] == "max" else f
+
+
+def opts_optimum(sp):
+    """(x*, f*) of a recipe, from NumPy alone; None if the optimum is not unique / degenerate / nearly so (such recipes are not used)"""
+    import itertools
+
+    n = len(sp["names"])
+    G, h = _opts_rows(sp)
+    m = len(h)
+    x = None
+    if sp["kind"] == "sepexp":
+        x = np.clip(np.array(sp["t"], dtype=float), sp["lb"], sp["ub"])
+        if np.any(np.abs(np.array(sp["t"]) - np.array(sp["lb"])) < 0.5) or np.any(np.abs(np.array(sp["t"]) - np.array(sp["ub"])) < 0.5):
+            return None
+        if np.any(h[:len(sp["cons"])] - G[:len(sp["cons"])] @ x < 0.5):        # its constraint is inactive, with a margin
+            return None
+        return x, opts_value(sp, x)
+    if sp["kind"] == "lp":
+        sg = -1.0 if sp["sense"] == "max" else 1.0
+        c = sg * np.array(sp["c"], dtype=float)
+        verts = []
+        for S in itertools.combinations(range(m), n):
+            Gs = G[list(S)]
+            if abs(np.linalg.det(Gs)) < 1e-9:
+                continue
+            v = np.linalg.solve(Gs, h[list(S)])
+            if np.all(G @ v <= h + 1e-9):
+                verts.append(v)
+        if not verts:
+            return None
+        best = min(verts, key=lambda v: float(c @ v))
+        for v in verts:
+            if np.linalg.norm(v - best) > 1e-7 and float(c @ v) < float(c @ best) + 0.05:
+                return None                                                     # second-best vertex too close: not unique enough
+        return best, opts_value(sp, best)
+    H = np.array(sp["H"], dtype=float)
+    g = -H @ np.array(sp["c"], dtype=float)
+    for k in range(0, n + 1):
+        for S in itertools.combinations(range(m), k):
+            S = list(S)
+            if S:
+                Gs = G[S]
+                if np.linalg.matrix_rank(Gs) < k:
+                    continue
+                K = np.block([[H, Gs.T], [Gs, np.zeros((k, k))]])
+                sol = np.linalg.solve(K, np.concatenate([-g, h[S]]))
+                v, lam = sol[:n], sol[n:]
+                if np.any(lam < -1e-12):
+                    continue
+            else:
+                v, lam = np.linalg.solve(H, -g), np.zeros(0)
+            slack = h - G @ v
+            if np.any(slack < -1e-10):
+                continue
+            # KKT point of a strictly convex program: the optimum.  Conditioning: strictly complementary, nothing nearly active,
+            # something active (otherwise the model is an unconstrained quadratic)
+            others = np.delete(slack, S)
+            # and not a vertex (a direction of curvature is left: the solvers need several iterations, so that option leaks show)
+            if not S or len(S) >= n or np.any(lam < 0.05) or np.any(others < 0.05):
+                return None
+            if sp["kind"] == "qpw" and any(i >= len(sp["cons"]) for i in S):
+                return None                         # methods that never see the bounds: no bound may be active
+            return v, opts_value(sp, v)
+    return None
+
+
+def _opts_draw(rng, kind, names):
+    n = rng.choice([2, 3])
+    names = list(names or rng.choice(OPT_NAME_POOLS))[:n]
+    n = len(names)
+    if kind == "qpw":
+        lb, ub = [-10.0] * n, [10.0] * n
+        p0 = [rng.choice([-2.0, -1.0, -0.5, 0.5, 1.0, 2.0]) for _ in range(n)]
+    else:
+        lb = [rng.choice([-1.0, 0.0, 0.5]) for _ in range(n)]
+        ub = [l + rng.choice([4.0, 5.0, 6.0]) for l in lb]
+        p0 = [l + (u - l) * rng.choice([0.25, 0.375, 0.5, 0.625]) for l, u in zip(lb, ub)]
+    sp = {"kind": kind, "names": names, "lb": lb, "ub": ub, "sense": rng.choice(["min", "min", "max"]),
+          "integer": rng.choice([None, None, rng.randrange(n)])}
+    if kind == "sepexp":
+        # sum_i exp(a_i x_i) - b_i x_i + d_i/2 (x_i - t_i)^2  with  b_i = a_i exp(a_i t_i): strictly convex (curvatures between 1 and
+        # about 7), separable, stationary exactly at t
+        a = [rng.choice([-0.5, -0.25, 0.25, 0.5]) for _ in range(n)]
+        t = [rng.choice([l + 1.0, l + 1.5, l + 2.0, l + 2.5, u - 1.5, u - 1.0]) for l, u in zip(lb, ub)]   # interior stationary point
+        sp.update(a=a, t=t, b=[ai * math.exp(ai * ti) for ai, ti in zip(a, t)], d=[rng.choice([1.0, 2.0]) for _ in range(n)])
+        p0 = [min(max(ti, l), u) for ti, l, u in zip(t, lb, ub)]
+    elif kind == "lp":
+        sp.update(c=[rng.choice([-3.0, -2.0, -1.5, -1.0, -0.5, 0.5, 1.0, 1.5, 2.0, 3.0]) for _ in range(n)],
+                  c0=rng.choice([0.0, 1.5, -2.0]))
+    else:
+        H = [[0.0] * n for _ in range(n)]
+        for i in range(n):
+            H[i][i] = rng.choice([1.5, 2.0, 3.0, 4.0])
+            for j in range(i + 1, n):
+                H[i][j] = H[j][i] = rng.choice([-0.5, 0.0, 0.0, 0.25, 0.5])
+        off = [-5.0, -4.0, -3.0, 3.0, 4.0, 5.0] if kind == "qpw" else [-6.0, -4.0, -3.0, 3.0, 4.0, 6.0]
+        sp.update(H=H, c=[p + rng.choice(off) for p in p0])
+    cons = []
+    for _ in range(0 if kind == "box" else 1 if kind == "sepexp" else rng.choice([1, 2, 2, 3])):
+        a = [rng.choice([-2.0, -1.0, -0.5, 0.0, 0.5, 1.0, 2.0]) for _ in range(n)]
+        while sum(1 for t in a if t) < 2:
+            a[rng.randrange(n)] = rng.choice([-1.0, 1.0])
+        sense = rng.choice(["<=", ">="])
+        at = sum(ai * pi for ai, pi in zip(a, p0))
+        margin = rng.choice([0.5, 1.0, 1.5])
+        cons.append([a, sense, at + margin if sense == "<=" else at - margin])
+    sp["cons"] = cons
+    return sp
+
+
+def opts_spec(rng, kind, names=None):
+    """a recipe (JSON data) whose optimum is unique and well separated from every degenerate situation"""
+    for _ in range(400):
+        sp = _opts_draw(rng, kind, names)
+        if opts_optimum(sp) is not None:
+            return sp
+    raise RuntimeError("no well-conditioned recipe of kind " + kind)
+
+
+def opts_build(sp):
+    from optyx import Variable, Problem, exp
+
+    n = len(sp["names"])
+    vs = [Variable(nm, lb=sp["lb"][i], ub=sp["ub"][i], **({"domain": "integer"} if sp["integer"] == i else {}))
+          for i, nm in enumerate(sp["names"])]
+    obj = None
+    if sp["kind"] == "lp":
+        for ci, v in zip(sp["c"], vs):
+            obj = ci * v if obj is None else obj + ci * v
+        obj = obj + sp["c0"]
+    elif sp["kind"] == "sepexp":
+        for ai, bi, di, ti, v in zip(sp["a"], sp["b"], sp["d"], sp["t"], vs):
+            t = exp(ai * v) - bi * v + (0.5 * di) * (v - ti) ** 2
+            obj = t if obj is None else obj + t
+    else:
+        for i in range(n):
+            t = (0.5 * sp["H"][i][i]) * (vs[i] - sp["c"][i]) ** 2
+            obj = t if obj is None else obj + t
+            for j in range(i + 1, n):
+                if sp["H"][i][j]:
+                    obj = obj + sp["H"][i][j] * ((vs[i] - sp["c"][i]) * (vs[j] - sp["c"][j]))
+    prob = Problem()
+    if sp["sense"] == "max":
+        prob.maximize(-obj if sp["kind"] != "lp" else obj)
+    else:
+        prob.minimize(obj)
+    for a, sense, b in sp["cons"]:
+        lhs = None
+        for ai, v in zip(a, vs):
+            if ai:
+                lhs = ai * v if lhs is None else lhs + ai * v
+        prob.subject_to(lhs <= b if sense == "<=" else lhs >= b)
+    return {"sp": sp, "vars": vs, "prob": prob}
+
+
+def _opts_stop(*_a, **_k):
+    raise StopIteration
+
+
+def opts_kwargs(desc, sp):
+    n = len(sp["names"])
+    kw = {}
+    for k, v in desc.items():
+        if k == "x0":
+            kw[k] = np.array(sp["ub"] if v == "ub" else [(l + u) / 2.0 for l, u in zip(sp["lb"], sp["ub"])], dtype=float)
+        elif k == "bounds":
+            kw[k] = [(0.0, 0.0)] * n
+        elif k == "callback":
+            kw[k] = _opts_stop if v == "stop" else (lambda *_a, **_k: None)
+        elif k == "integrality":
+            kw[k] = [int(v)] * n
+        elif k == "options":
+            kw[k] = dict(v)
+        else:
+            kw[k] = v
+    return kw
+
+
+def opts_solve(M, method, desc):
+    """[status, values, objective, iterations] of one Problem.solve call ("auto" = the plain solve()), or the exception class"""
+    try:
+        with warnings.catch_warnings(), np.errstate(all="ignore"):
+            warnings.simplefilter("ignore")
+            s = M["prob"].solve(**({} if method == "auto" else {"method": method}), **opts_kwargs(desc, M["sp"]))
+        return [s.status.name, {k: float(v) for k, v in sorted((s.values or {}).items())},
+                None if s.objective_value is None else _f(s.objective_value), None if s.iterations is None else int(s.iterations)]
+    except Exception as ex:  # noqa: BLE001
+        return ["raise:" + type(ex).__name__]
+
+
+def opts_observe(sp, method, own) -> dict:
+    """the measured model, built from fresh objects each time: the default solve, then its own explicit options"""
+    return {"default": opts_solve(opts_build(sp), method, {}), "own": opts_solve(opts_build(sp), method, own)}
+
+
+def opts_xtol(sp, method):
+    if sp["kind"] == "lp":
+        return OPT_XTOL["linprog"]
+    return OPT_XTOL[OPT_ROUTE[sp["kind"]] if method == "auto" else method]
+
+
+def opts_judge(sp, method, got):
+    """independent verdict: (where, got, expected) or None"""
+    xstar, fstar = opts_optimum(sp)
+    tol = opts_xtol(sp, method)
+    ent = got["default"]
+    want = ["OPTIMAL", dict(zip(sp["names"], np.round(xstar, 7).tolist())), round(fstar, 7)]
+    if len(ent) < 4 or ent[0] != "OPTIMAL" or ent[2] is None or isinstance(ent[2], str) or sorted(ent[1]) != sorted(sp["names"]):
+        return "/default", ent, want
+    xs = np.array([ent[1][nm] for nm in sp["names"]])
+    scale = 1.0 + float(np.max(np.abs(xstar)))
+    if not _close(xs, xstar, 0.0, tol * scale) or abs(ent[2] - fstar) > 0.2 * tol * (1.0 + abs(fstar)):
+        return "/default", ent, want
+    return None
+
+
+def opts_diff(a, b, xtol=1e-8):
+    """first difference between two observations of the same model (status, iterations exact; floats to xtol)"""
+    for key in ("default", "own"):
+        p, q = a[key], b[key]
+        if len(p) != len(q) or p[0] != q[0]:
+            return "/" + key + "/status"
+        if len(p) == 4:
+            if p[3] != q[3]:
+                return "/" + key + "/iterations"
+            if sorted(p[1]) != sorted(q[1]):
+                return "/" + key + "/values"
+            for nm in p[1]:
+                if not _close([p[1][nm]], [q[1][nm]], xtol, xtol):
+                    return "/" + key + "/values/" + nm
+            if (p[2] is None) != (q[2] is None) or (p[2] is not None and not isinstance(p[2], str) and not isinstance(q[2], str)
+                                                    and not _close([p[2]], [q[2]], xtol, xtol)):
+                return "/" + key + "/objective"
+    return None
+
+
+def opts_a_op(rng, method, desc, bnames):
+    """one solve of an unrelated model with explicit options: [recipe, method, options]"""
+    kind = "lp" if method in OPT_LP_METHODS[1:] else rng.choice(OPT_KIND_FOR[method])
+    sp = opts_spec(rng, kind, names=bnames if rng.random() < 0.5 else None)
+    if "strict" in desc:
+        sp["integer"] = 0
+    return [sp, method, desc]
+
+
+def opts_plan(rng, thorough, reps=None):
+    """sessions [recipe of B, method, B's own options, rounds]; a round = the solves of other models in front of B"""
+    targets = list(OPT_TARGETS) + (OPT_TARGETS_MORE if thorough else [rng.choice(OPT_TARGETS_MORE)])
+    sessions = []
+    for rep_i in range(reps or (3 if thorough else 1)):
+        for kind, method in targets:
+            lp = kind == "lp"
+            sp = opts_spec(rng, kind)
+            own = rng.choice(OPT_OWN_LP if lp else OPT_OWN_NLP)
+            descs, caps = (OPT_LP_DESCS, OPT_LP_CAPS) if lp else (OPT_NLP_DESCS, OPT_CAPS)
+            route = OPT_ROUTE[kind] if method == "auto" else method
+            slow = route == "trust-constr"
+            n_rounds = (len(descs) if not slow else 6) if thorough else (2 if slow else 3)
+            order = list(descs); rng.shuffle(order)
+            rounds = []
+            for r in range(n_rounds):
+                if r % 3 == 0:          # the same method (for `auto`: its route, by name or through auto) with an iteration cap
+                    last = (method if rng.random() < 0.5 else route, rng.choice(caps))
+                elif r % 3 == 1:        # the same method, any options
+                    last = (method if rng.random() < 0.5 else route, order[r % len(order)])
+                else:                   # any other method of the same back end or of the other one
+                    m2 = rng.choice(OPT_LP_METHODS + OPT_NLP_METHODS)
+                    last = (m2, rng.choice(OPT_LP_DESCS if m2 in OPT_LP_METHODS[1:] else OPT_NLP_DESCS))
+                ops = []
+                if rng.random() < 0.4:
+                    m1 = rng.choice(OPT_LP_METHODS[1:] if lp else OPT_NLP_METHODS[1:])
+                    ops.append(opts_a_op(rng, m1, rng.choice(OPT_LP_DESCS if lp else OPT_NLP_DESCS), sp["names"]))
+                am, ad = last
+                if am == "linprog" and not lp:
+                    am = "auto"
+                if am == "auto" and lp is False and kind != "lp":
+                    a = opts_a_op(rng, "auto", ad, sp["names"])
+                    if r % 3 != 2:
+                        a[0] = opts_spec(rng, kind, names=a[0]["names"])      # same route as B
+                        if "strict" in ad:
+                            a[0]["integer"] = 0
+                    ops.append(a)
+                elif am == "auto":
+                    a = opts_a_op(rng, "highs", ad, sp["names"]); a[1] = "auto"
+                    ops.append(a)
+                else:
+                    ops.append(opts_a_op(rng, am, ad, sp["names"]))
+                rounds.append(ops)
+            sessions.append([sp, method, own, rounds])
+    return sessions
+
+
+def opts_family(rep, ref, plan, stop_at_first=False, max_failures=3):
+    n_bad = 0
+    trail = []       # every solve with explicit options so far in this process (other models; own options of measured models)
+    for si, (sp, method, own, rounds) in enumerate(plan):
+        key = json.dumps(["opts", sp, method, own])
+        want = None if ref is None else ref[key]
+        before = list(trail[-8:])
+        twin = opts_observe(sp, method, own)          # fresh objects, solved BEFORE the other models of this session
+        trail.append(["measured model, own options", sp["kind"], method, own, twin["own"][0]])
+        for r in range(-1, len(rounds)):
+            if r < 0:
+                got = twin
+            else:
+                for a, m, d in rounds[r]:
+                    trail.append(["other model", a["kind"], m, d, opts_solve(opts_build(a), m, d)[0]])
+                before = list(trail[-8:])
+                got = opts_observe(sp, method, own)
+                trail.append(["measured model, own options", sp["kind"], method, own, got["own"][0]])
+                rep.nontrivial.add(("opts", si, r))
+                lastd = json.dumps(rounds[r][-1][2], sort_keys=True)
+                rep.histogram.setdefault("opts:last-options", {})
+                rep.histogram["opts:last-options"][lastd] = rep.histogram["opts:last-options"].get(lastd, 0) + 1
+            rep.evaluations += 1
+            hk = f"opts:{sp['kind']}:{method}"
+            rep.histogram[hk] = rep.histogram.get(hk, 0) + 1
+            head = {"opts": [s[:3] + [s[3] if i < si else s[3][:r + 1]] for i, s in enumerate(plan[:si + 1])],
+                    "model": sp, "method": method, "own_options": own,
+                    "solves_with_explicit_options_before": before, "sessions_before": si}
+            bad = None
+            verdict = opts_judge(sp, method, got)
+            if verdict:
+                bad = dict(head, what="default solve of a model after OTHER models were solved with explicit per-call options is not "
+                                      "the optimum computed in NumPy from its recipe (KKT / vertex enumeration)",
+                           where=verdict[0], got=str(verdict[1])[:300], expected=str(verdict[2])[:300])
+            if bad is None and r >= 0:
+                d = opts_diff(got, twin)
+                if d:
+                    k0 = d.split("/")[1]
+                    bad = dict(head, what="solve result of a model differs from its twin (fresh objects) solved before the other "
+                                          "models of the session were solved with explicit per-call options",
+                               where=d, got=str(got[k0])[:300], twin=str(twin[k0])[:300])
+            if bad is None and want is not None:
+                d = opts_diff(got, want)
+                if d:
+                    k0 = d.split("/")[1]
+                    bad = dict(head, what="solve result of a model after other models were solved with explicit per-call options "
+                                          "differs from a fresh process",
+                               where=d, got=str(got[k0])[:300], fresh=str(want[k0])[:300])
+            if bad:
+                rep.oracle_failures.append(bad)
+                n_bad += 1
+                if stop_at_first:
+                    return bad
+                break
+        if n_bad >= max_failures:
+            break
+    return None
+
+
 # ----------------------------------------------------------------------------- object lifetime: discard-and-rebuild
 
 LIFE_KINDS = ["lin", "quad", "quart", "nonpoly", "param"]
@@ -2120,11 +2548,46 @@ def reference(seeds: list[int], own_process_each: bool = False) -> dict:
     return res
 
 
+def _in_fork(thunk):
+    """the JSON value of thunk() computed in a forked child of this process: the interpreter state the child starts from is the
+    one right after `import optyx` — nothing any other item of the chunk did (solver glue, module globals) can be seen by it"""
+    r, w = os.pipe()
+    pid = os.fork()
+    if pid == 0:
+        code = 1
+        try:
+            os.close(r)
+            data = json.dumps(thunk()).encode()
+            while data:
+                data = data[os.write(w, data):]
+            code = 0
+        finally:
+            os._exit(code)
+    os.close(w)
+    buf = []
+    while True:
+        b = os.read(r, 1 << 16)
+        if not b:
+            break
+        buf.append(b)
+    os.close(r)
+    _, status = os.waitpid(pid, 0)
+    if status != 0:
+        raise RuntimeError("forked reference child failed")
+    return json.loads(b"".join(buf).decode())
+
+
 def _ref_main():
     core.use_repo()
     seeds = json.loads(sys.stdin.read())
     out = {}
+    # solver-option items first, each in a forked child of the still untouched interpreter
     for s in seeds:
+        if isinstance(s, list) and s[0] == "opts":
+            out[json.dumps(s)] = _in_fork(lambda s=s: opts_observe(s[1], s[2], s[3]))
+    for s in seeds:
+        if isinstance(s, list) and s[0] == "opts":
+            continue
         clear_lru()
         if isinstance(s, list) and s[0] == "slack":
             out[json.dumps(s)] = slack_observe(slack_build(slack_specs(s[3])[s[1]], s[2]))
@@ -2241,7 +2704,8 @@ def run(ctx) -> core.Report:
                            "whose prefix shares names with the model, and every discard-and-rebuild round (5 degree classes × shallow / deep "
                            "chains); every model of a sequence over distinct views with equal label and size that follows another one; every model "
                            "measured after a history in which an operation on another model (same names, shifted positions) ended in "
-                           "an exception; "
+                           "an exception; every model solved after other models were solved with explicit per-call solver options "
+                           "(12+ kind × method targets × rounds); "
                            "LRU policy: random request sequences, capacities 0–6")
     base = ctx["seed"] * 1000
     n_models = 64 if thorough else 24
@@ -2266,7 +2730,9 @@ def run(ctx) -> core.Report:
     rep.histogram["views:colliding_labels_found"] = view_strata
     aborts, abort_specs = abort_plan(rng, 48 if thorough else 24, 4 if thorough else 1)
     abort_items = [["abort", ms] for ms in abort_specs]
-    ref = reference(seeds + probe_items + small_items + slack_items + view_items + abort_items)
+    opts = opts_plan(core.Rng(ctx["seed"] * 1000003 + 1414), thorough)
+    opts_items = [["opts", s[0], s[1], s[2]] for s in opts]
+    ref = reference(seeds + probe_items + small_items + slack_items + view_items + abort_items + opts_items)
     probe_ref = small_ref = slack_ref = ref
     ref_own = reference(own, own_process_each=True)
     for s in own:
@@ -2333,6 +2799,9 @@ def run(ctx) -> core.Report:
         # histories whose operations on other models are ABORTED half way by an exception (every entry point × every way of
         # failing), then a model over the same names at shifted positions: NumPy model of its formula + fresh process
         abort_family(rep, ref, aborts)
+        # other models solved with explicit per-call options (every method, caps / tolerances / starting points / odd keywords),
+        # then a model solved with defaults: NumPy optimum of its recipe, its twin solved before them, a fresh process
+        opts_family(rep, ref, opts)
         # prefixes that end in exceptions: interpreter-wide state untouched, later observations unaffected
         before = interpreter_state()
         outcomes = faulting_prefix()
@@ -2375,6 +2844,10 @@ def run(ctx) -> core.Report:
 
 def search(ctx, rep):
     rng = core.Rng(ctx["seed"] + 15485863)
+    # models solved after other models were solved with explicit per-call options (NumPy optimum + twin: no reference needed)
+    found = opts_family(core.Report(), None, opts_plan(rng, False, reps=3), stop_at_first=True)
+    if found:
+        return found
     # models measured after aborted operations on other models (judged by the NumPy model of their formula: no reference needed)
     try:
         plan, _ = abort_plan(rng, 60, 3)
@@ -2421,6 +2894,13 @@ def replay(payload) -> bool:
             slack_family(rep, None, ref, th, only=i)
         finally:
             clear_lru()
+        print("failures:", rep.oracle_failures[:1])
+        return not rep.oracle_failures
+    if "opts" in f:
+        plan = f["opts"]
+        ref = reference([["opts", sp, m, own] for sp, m, own, _ in plan], own_process_each=True)
+        rep = core.Report()
+        opts_family(rep, ref, plan)
         print("failures:", rep.oracle_failures[:1])
         return not rep.oracle_failures
     if "abort" in f:
